@@ -181,7 +181,7 @@ def run(ctx, rundir, env=None, preload=None, feed_chunk=0, drain_chunk=0, timeou
         cmd = [vcommon.tool(v, "gensquashfs")] + ctx["args"] + [out]
     elif kind == "t2s":
         out = os.path.join(rundir, "out.sqfs")
-        cmd = [vcommon.tool(v, "tar2sqfs"), "-q", "-c", o["comp"], "-b", str(o["B"]), "-j", str(o["j"])] + (["-T"] if o["T"] else []) + (["-e"] if o["e"] else []) + [out]
+        cmd = [vcommon.tool(v, "tar2sqfs"), "-q", "-c", o["comp"], "-b", str(o["B"]), "-j", str(o["j"])] + (["-T"] if o["T"] else []) + (["-e"] if o["e"] else []) + (["-f"] if ctx.get("force") else []) + [out]
         stdin = ctx["stdin"]
     elif kind == "s2t":
         cmd = [vcommon.tool(v, "sqfs2tar")] + (["-c", case["s2t_codec"]] if case.get("s2t_codec") else []) + [ctx["img"]]
